@@ -190,9 +190,14 @@ def run_apply(ctx, mods):
 
 
 # ---- ServersMixin as a state machine: several entries, repeated hostnames, policies stored between pops ----
-MIX_HOSTS = ['irc.example.org', 'alt.example.net']
+MIX_HOSTS = ['irc.example.org', 'Alt.Example.NET', 'IRC.Example.Org', 'alt.example.net']
 MIX_POLS = ['port=6697,duration=300', 'duration=100,port=7000', 'port=6697,duration=0', 'port=1,duration=1000000', 'port=x,duration=3']
 MIX_CORPUS = [
+    # configured hostnames with capitals: the policy is stored and looked up under the hostname as configured
+    {'conf': [['Irc.Example.Org', 6667], ['Irc.Example.Org', 8000]],
+     'evs': [[2, 1000], [0, 'Irc.Example.Org', 'port=6697,duration=300'], [1, 1010, 'Irc.Example.Org'], [2, 1020], [3], [2, 1030], [2, 1400]]},
+    {'conf': [['IRC.Example.Org', 6667], ['irc.example.org', 6667], ['Alt.Example.NET', 6667]],
+     'evs': [[0, 'IRC.Example.Org', 'port=6697,duration=300'], [0, 'Alt.Example.NET', 'duration=100,port=7000'], [2, 5], [2, 6], [2, 7], [3], [2, 8], [2, 9], [2, 10]]},
     # a restart between storing the policy and the next connection: the policy must survive networks.conf
     {'conf': [['irc.example.org', 6667]],
      'evs': [[2, 1000], [0, 'irc.example.org', 'port=6697,duration=3600'], [1, 1010, 'irc.example.org'], [3], [2, 1020], [3], [2, 2000], [2, 9000]]},
